@@ -17,6 +17,7 @@ import (
 	ethtypes "github.com/ethereum/go-ethereum/core/types"
 	ethcrypto "github.com/ethereum/go-ethereum/crypto"
 	"github.com/ontio/ontology/common"
+	"github.com/ontio/ontology/common/config"
 	"github.com/ontio/ontology/core/payload"
 )
 
@@ -65,7 +66,8 @@ func TestVerifTxGen(t *testing.T) {
 	key, err := ethcrypto.ToECDSA(keyBytes)
 	vhMust(err)
 	payer := ethcrypto.PubkeyToAddress(key.PublicKey)
-	chainID := big.NewInt(5851)
+	// the chain id the decoder expects when CheckChainID is on (the package's own tests switch it on)
+	chainID := big.NewInt(int64(config.DefConfig.P2PNode.EVMChainId))
 	signer := ethtypes.NewEIP155Signer(chainID)
 	gwei := big.NewInt(1000000000)
 	to := ethcomm.BytesToAddress([]byte{1, 2, 3, 4, 5, 6, 7, 8, 9, 10, 11, 12, 13, 14, 15, 16, 17, 18, 19, 20})
